@@ -46,6 +46,10 @@ type JobSpec struct {
 	Side     int   `json:"side,omitempty"`      // 0: enqueued by the caller; k>0: by side goroutine k
 	Gate     bool  `json:"gate,omitempty"`      // body blocks until the scenario's gate opens
 	Bar      bool  `json:"bar,omitempty"`       // body joins the scenario's barrier (all Bar jobs must run at once)
+	// DeadCtx: the job is submitted with a context of its own that is already
+	// done (1: cancelled, 2: its deadline has passed) while the other jobs'
+	// context is live. It must not be started; its failure is that context's error.
+	DeadCtx int `json:"dead_ctx,omitempty"`
 }
 
 const (
@@ -295,6 +299,14 @@ func genMix(r *vc.Rand, index int) *Scenario {
 	}
 	sc.LooseErrs = r.Chance(1, 6)
 	sc.CtxLikeErrs = r.Chance(1, 6)
+	if r.Chance(1, 4) {
+		rate := vc.Pick(r, 5, 15, 30)
+		for i := range sc.Jobs {
+			if b := sc.Jobs[i].Beh; (b == BehOK || b == BehErr) && !sc.Jobs[i].OtherCtx && r.Intn(100) < rate {
+				sc.Jobs[i].DeadCtx = 1 + r.Intn(2)
+			}
+		}
+	}
 	return sc
 }
 
